@@ -22,7 +22,7 @@ from vmc.core import scratch
 from vmc.core.rec import HarnessError, Rec, jsonable
 
 HERE = os.path.dirname(os.path.dirname(os.path.abspath(__file__)))
-UNIT_TIMEOUT = int(os.environ.get("VMC_UNIT_TIMEOUT", "900"))
+UNIT_TIMEOUT = int(os.environ.get("VMC_UNIT_TIMEOUT", "0"))      # 0 = by tier: 900 s (quick), 3600 s (thorough); the longest units take < 60 s / < 400 s
 ALL_IDS = ["C%02d" % i for i in range(1, 21)]
 
 
@@ -53,14 +53,15 @@ def run_unit(mod, unit, idx, tier, only=None):
     U.unit = unit
     U.only = only
     signal.signal(signal.SIGALRM, _alarm)
-    signal.alarm(UNIT_TIMEOUT)
+    limit = UNIT_TIMEOUT or (3600 if tier == "thorough" else 900)
+    signal.alarm(limit)
     t0 = time.time()
     try:
         mod.run(unit, U, tier, only)
     except HarnessError:
         raise
     except UnitTimeout:
-        U.mismatch("hang", only, f"unit did not finish within {UNIT_TIMEOUT}s")
+        U.mismatch("hang", only, f"unit did not finish within {limit}s")
     except Exception as e:
         tb = traceback.extract_tb(e.__traceback__)
         where = " <- ".join(f"{os.path.basename(fr.filename)}:{fr.lineno}" for fr in tb[-4:])
